@@ -295,6 +295,8 @@ TIE.update({
     'add_vote': ['C01', 'C04', 'C06', 'C19'],
     'add_timeout': ['C01', 'C04', 'C06', 'C10', 'C19'],
 })
+# store/src/lib.rs, the command loop of the store task (tools/skelstore.py -> coq/GenStore.v; refinement to StoreDefs.sstep)
+PROPS['C16'].setdefault('tie', []).append('store_step')
 for _f, _ps in TIE.items():
     for _p in set(_ps) | {'C15'}:          # C15: the no-panic theorem is about every function of the node model
         PROPS[_p].setdefault('tie', []).append(_f)
